@@ -273,7 +273,7 @@ static void run_case(rng &r, long long idx, bool exhaustive_cuts)
 extern "C" int LLVMFuzzerTestOneInput(uint8_t const *data, size_t size)
 {
 	static bool init = false;
-	if (!init) { char t[] = "/tmp/verif-mpfuzz-XXXXXX"; g_tmpdir = mkdtemp(t); init = true; }
+	if (!init) { char t[] = "/tmp/verif-mpfuzz-XXXXXX"; g_tmpdir = mkdtemp(t); init = true; atexit([]() { rmdir(g_tmpdir.c_str()); }); }     // spilled files are removed by the parser itself
 	if (size < 3) return 0;
 	std::string body((char const *)data + 2, size - 2);
 	std::string ct = "multipart/form-data; boundary=XyZ";
